@@ -508,7 +508,7 @@ def main(argv):
         return 0
     t_start = time.time()
     SETS, META = load_sets()
-    sel = [s for s in SETS if pid in s["props"] and (tier == "thorough" or s.get("tier", "quick") == "quick")]
+    sel = [s for s in SETS if pid in s["props"] and not s.get("disabled") and (tier == "thorough" or s.get("tier", "quick") == "quick")]
     if a.sets:
         want = a.sets.split(",")
         sel = [s for s in SETS if s["id"] in want]
